@@ -118,6 +118,11 @@ pub fn run(prop: &E1Prop, tier: Tier) -> i32 {
         extra(&mut rep, &mut stats, tier, &findings);
     }
 
+    let harness_panics: Vec<&String> = stats.notes.iter().filter(|n| n.starts_with("HARNESS-PANIC")).collect();
+    let harness_broken = !harness_panics.is_empty();
+    for n in harness_panics.iter().take(5) {
+        eprintln!("{n}");
+    }
     ev.write(&stats, rep.violations, &rep.known_lines);
     eprintln!(
         "[{}] {} evaluations, {} distinct non-trivial, {} violations, {:.1}s",
@@ -127,6 +132,10 @@ pub fn run(prop: &E1Prop, tier: Tier) -> i32 {
         rep.violations,
         ev.started.elapsed().as_secs_f64()
     );
+    if harness_broken && rep.violations == 0 {
+        eprintln!("[{}] the checker itself panicked on some cases: infrastructure failure, no verdict", prop.id);
+        return 2;
+    }
     rep.exit_code()
 }
 
@@ -220,14 +229,30 @@ fn t1(prop: &E1Prop, seed: u64, cases: u32, rep: &mut Reporter, stats: &mut Stat
         let res = r.run(&strat, |tape| {
             let mut t = Tape::new(&tape);
             let mut labels = Vec::new();
-            let Some(case) = (prop.gen_case)(&mut t, &mut labels) else {
+            let generated = match crate::engine::guarded(|| (prop.gen_case)(&mut t, &mut labels)) {
+                Ok(g) => g,
+                Err(p) => {
+                    st.borrow_mut().notes.push(format!("HARNESS-PANIC in generator: {p}"));
+                    return Ok(());
+                }
+            };
+            let Some(case) = generated else {
                 if !*failed.borrow() {
                     st.borrow_mut().skip("generator discarded");
                 }
                 return Ok(());
             };
             let (out, ticks) = run_format(&case);
-            let v = (prop.oracle)(&case, &out, ticks);
+            let v = match crate::engine::guarded(|| (prop.oracle)(&case, &out, ticks)) {
+                Ok(v) => v,
+                Err(p) => {
+                    let mut s = st.borrow_mut();
+                    if s.notes.len() < 5 {
+                        s.notes.push(format!("HARNESS-PANIC in oracle: {p} :: source {:?} range {:?}", case.source.chars().take(300).collect::<String>(), case.range));
+                    }
+                    return Ok(());
+                }
+            };
             let counting = !*failed.borrow();
             match v {
                 Verdict::Pass { nontrivial } => {
